@@ -226,4 +226,44 @@ def toggle(inp):
         return {"got": mid, "expected": "only the second source", "witness_class": "disabled-source-contributes"}
 
 
+def gen_copy(tier, seed):
+    for kind in ("indexed", "xy_y", "xy_x", "xy_data", "hist"):
+        for a in SRC:
+            for read_first in (False, True):
+                yield {"kind": kind, "sources": [a], "read_before_copy": read_first}
+        for a, b in (("s_rel", "m_cov"), ("m_cor_rel", "s_abs_c"), ("s_abs", "m_cov_rel")):
+            yield {"kind": kind, "sources": [a, b], "read_before_copy": False}
+
+
+@R.oracle("a_copy_has_its_own_reference", gen_copy, obligation="")
+def copy_oracle(inp):
+    """a deep copy of a container (what XYFit / IndexedFit / HistFit keep of the container they are given) is a container of its own: its total follows ITS values,
+    not those the original takes later"""
+    import copy
+    k = Kind(inp["kind"])
+    for s_ in inp["sources"]:
+        k.add(s_)
+    if inp["read_before_copy"]:
+        k.observe("cov")
+    k2 = Kind(inp["kind"])
+    k2.c = copy.deepcopy(k.c)
+    k2.axis = k.axis
+    vals_copy = k2.values()
+    k.change()                           # the ORIGINAL takes other values
+    got = np.asarray(k2.observe("cov"))
+    exp = sum((spec_cov(SRC[s_], vals_copy) for s_ in inp["sources"]), np.zeros((N, N)))
+    if not np.allclose(k2.values(), vals_copy):
+        return {"got": k2.values(), "expected": vals_copy, "witness_class": f"{inp['kind']}:copy-values-follow-the-original"}
+    if not np.allclose(got, exp, rtol=1e-10, atol=1e-14):
+        return {"got": got, "expected": exp, "witness_class": f"{inp['kind']}:copy-total-follows-the-original"}
+    k2.change(); k2.change()            # and the copy's own changes are seen by the copy (and not by the original)
+    got2, exp2 = np.asarray(k2.observe("cov")), sum((spec_cov(SRC[s_], k2.values()) for s_ in inp["sources"]), np.zeros((N, N)))
+    if not np.allclose(got2, exp2, rtol=1e-10, atol=1e-14):
+        return {"got": got2, "expected": exp2, "witness_class": f"{inp['kind']}:copy-total-after-own-change"}
+    got3, exp3 = np.asarray(k.observe("cov")), sum((spec_cov(SRC[s_], k.values()) for s_ in inp["sources"]), np.zeros((N, N)))
+    if not np.allclose(got3, exp3, rtol=1e-10, atol=1e-14):
+        return {"got": got3, "expected": exp3, "witness_class": f"{inp['kind']}:original-total-after-copy-changed"}
+    R.cover("copy:" + inp["kind"])
+
+
 sys.exit(R.main())
